@@ -3,10 +3,14 @@ package main
 import "time"
 
 type propCfg struct {
-	Pkg             string
-	Test            string
-	Race            bool
-	RaceThorough    bool // build with -race in the thorough tier only
+	Pkg          string
+	Test         string
+	Race         bool
+	RaceThorough bool // build with -race in the thorough tier only
+	// RaceIsViolation: a race-detector report whose stacks name package github.com/mattn/anko
+	// is reported as a VIOLATION (the report text is saved as the replay artefact); otherwise a
+	// report only makes the run inconclusive.
+	RaceIsViolation bool
 	Tags            string
 	ShardsThorough  int
 	QuickTimeout    time.Duration
@@ -25,7 +29,9 @@ var commonAssumptions = []string{
 	"exploration only: the property held on every generated case; absence of violations outside the explored set is not established",
 }
 
-func assume(extra ...string) []string { return append(append([]string{}, commonAssumptions...), extra...) }
+func assume(extra ...string) []string {
+	return append(append([]string{}, commonAssumptions...), extra...)
+}
 
 var props = map[string]propCfg{}
 
